@@ -167,6 +167,8 @@ def c07(tier, seed):
     run.add_bounded("construction orders of the same structure", BF.order_family(seed, _n(tier, 60, 2000), ["C07"]))
     run.add_bounded("mux live/dead patterns: attribution and aggregate rows", BF.mux_family(seed, tier, ("C07",)))
     run.add_bounded("re-timed phases (solve, set_sys_phases with other durations, solve) vs fresh system", BF.retime_family(seed, _n(tier, 60, 1500)))
+    from bounded import hist
+    run.add_bounded("aggregate rows after edit histories (freed node slots re-used)", hist.random_history_family(seed + 5, _n(tier, 250, 5000), _n(tier, 6, 10), ["C07"]))
     run.notes.append("the pandas aggregation code of solve() is outside P reach: Subsystem/total/average rows are decided bounded")
     return run.finish()
 
@@ -324,8 +326,12 @@ def c18(tier, seed):
 
 
 def c19(tier, seed):
-    run = Run("C19", tier, seed, "exploration", "bin/check C19 --tier " + tier)
+    run = Run("C19", tier, seed, "other", "bin/check C19 --tier " + tier)
+    from contracts import diagram as CD
+    from .system_layer import _discharge
+    _discharge(run, CD.obligations(run, Source()), "diagram helpers (_nice_float, _gcolor, _diag.add_node)")
     from bounded import diagrams as DG
+    run.add_bounded("label / colour helpers on a log grid (engine model vs CPython)", DG.helper_family(seed, _n(tier, 3000, 200000)))
     run.add_bounded("Graphviz JSON read-back of make_diag / make_hdiag", DG.diagram_family(seed, _n(tier, 150, 4000)))
-    run.notes.append("pydot / Graphviz / matplotlib / pandas: no obligation within P reach; decided bounded only")
+    run.notes.append("pydot / Graphviz / matplotlib / pandas (_prep_loss, node/edge/cluster construction in _diag): no obligation within P reach; decided bounded only")
     return run.finish()
